@@ -226,7 +226,7 @@ func (tds *Conn) ReadFrom() {
 			if !tds.queueError(fmt.Errorf("error reading packet: %w", err)) {
 				return
 			}
-			if n > 0 && !errors.Is(err, ErrEOFAfterZeroRead) {
+			if n > 0 {
 				// Part of a packet was consumed: the position in the
 				// stream is lost and whatever follows cannot be told
 				// apart from a packet header. Do not read on, keep
